@@ -222,6 +222,24 @@ func genQueue(repo, out string) {
 	l.line("def multiplierDen : Nat := %d", c.mulDen)
 	l.line("def randomizationNum : Nat := %d", c.rfNum)
 	l.line("def randomizationDen : Nat := %d", c.rfDen)
+	// containers/priority_queue.go: Peek yields the head iff its release time is not after `now`; Push of an existing key
+	// keeps the entry where it is iff the new release time is strictly later
+	pqf := parse(filepath.Join(repo, "pkg/controller/runtime/internal/qruntime/internal/containers/priority_queue.go"))
+	peekLE, pushLater := false, false
+
+	if fd := method(pqf, "PriorityQueue[K, V]", "Peek"); fd != nil && fd.Body != nil && len(fd.Body.List) == 2 {
+		peekLE = src(fd.Body.List[0]) == "if len(queue.items) > 0 { delay := queue.items[0].ReleaseAfter.Sub(now) if delay <= 0 { return optional.Some(queue.items[0].Key), optional.Some(queue.items[0].Value), 0 } return optional.None[K](), optional.None[V](), delay }" &&
+			src(fd.Body.List[1]) == "return optional.None[K](), optional.None[V](), 0"
+	}
+
+	if fd := method(pqf, "PriorityQueue[K, V]", "Push"); fd != nil && fd.Body != nil && len(fd.Body.List) >= 2 {
+		pushLater = src(fd.Body.List[1]) == "if idx != -1 { if overwriteValue { queue.items[idx].Value = value } if releaseAfter.Compare(queue.items[idx].ReleaseAfter) > 0 { return false } queue.items = slices.Delete(queue.items, idx, idx+1) }"
+	}
+
+	l.line("/-- PriorityQueue.Peek: the head is yielded iff `ReleaseAfter.Sub(now) <= 0`, else its delay is returned -/")
+	l.line("def pqPeekDueLE : Bool := %s", leanBool(peekLE))
+	l.line("/-- PriorityQueue.Push of an existing key: value overwritten on request, entry kept in place iff the new time is strictly later, else re-inserted -/")
+	l.line("def pqPushKeepsIfLater : Bool := %s", leanBool(pushLater))
 	l.write(out, ns)
 }
 
